@@ -272,6 +272,19 @@ def _deser_fraction(data, **kwargs):
     return fractions.Fraction(int(data["n"]), int(data["d"]))
 
 
+class PlainUUID(uuid.UUID):
+    """a sub-class of a registered type that is not registered itself"""
+
+
+class Coin(Money):
+    """a sub-class of a registered plain class that is not registered itself"""
+
+
+# what register() registers, plus what krrood registers at import: the types a tag may name besides serialisable classes
+REGISTERED_TYPES = (uuid.UUID, decimal.Decimal, Early, Money, TaxedMoney, Tip, EntityId, fractions.Fraction, collections.deque,
+                    Point, Level)
+
+
 def register():
     reg = JSONSerializableTypeRegistry()
     reg.register(decimal.Decimal, _ser_decimal, _deser_decimal)
